@@ -1,6 +1,7 @@
 // C06 instrumenter: copies a Go source file of the CURRENT working tree and, inside every goroutine
 // body (`go func(...) {...}(...)`) started by the named function, inserts
-//     defer HOOK("g<k>.exit")            as the first statement of the goroutine body, and
+//     defer HOOK("g<k>.exit")            after the leading defer statements of the goroutine body (so that
+//                                        it runs before them), and
 //     HOOK("g<k>.<n>")                   before every statement of every statement list in it
 //                                        (block, case and select-clause bodies, nested function literals),
 // k = index of the go statement in source order, n = running number. Add-only: every original byte
@@ -65,7 +66,19 @@ func main() {
 			g := k
 			k++
 			cnt := 0
-			ins = append(ins, insertion{off(lit.Body.Lbrace) + 1, fmt.Sprintf(" defer %s(\"g%d.exit\"); ", *hook, g)})
+			// the exit point is deferred after the goroutine's own leading defers (e.g. `defer
+			// wg.Done()`), so that it runs before them: the goroutine reports its end before the
+			// function that waits for it can return
+			exitOff := off(lit.Body.Lbrace) + 1
+			exitTxt := fmt.Sprintf(" defer %s(\"g%d.exit\"); ", *hook, g)
+			for _, st := range lit.Body.List {
+				if _, isDefer := st.(*ast.DeferStmt); !isDefer {
+					break
+				}
+				exitOff = off(st.End())
+				exitTxt = fmt.Sprintf("; defer %s(\"g%d.exit\")", *hook, g)
+			}
+			ins = append(ins, insertion{exitOff, exitTxt})
 			var list func(stmts []ast.Stmt)
 			var walk func(n ast.Node)
 			list = func(stmts []ast.Stmt) {
